@@ -17,7 +17,7 @@ theorem startsWith_dash {r : String} (h : startsWith r "-" = true) : r.toList = 
   | cons c cs =>
     rw [hl] at h
     simp [List.isPrefixOf] at h
-    simp
+    simp [h.symm]
 
 theorem dash_dropFirst {r : String} (h : isNegRepr r = true) : "-" ++ dropFirst r = r := by
   apply toList_inj'
@@ -60,5 +60,692 @@ theorem setValueStr_id {s : String} (h : quotedLike s = false) : setValueStr s =
   unfold setValueStr; simp [h]
 theorem unquoteStr_id {s : String} (h : quotedLike s = false) : unquoteStr s = s := by
   unfold unquoteStr; simp [h]
+
+/-! ## constants through `to_code` + `ast.parse` + `get_value` -/
+
+/-- numeric `repr`s the re-read model handles -/
+def numOK : Default → Bool
+  | .float r => okNumRepr r
+  | .complex r => okNumRepr r
+  | _ => true
+
+theorem isNegRepr_dropFirst {r : String} (h : okNumRepr r = true) : isNegRepr (dropFirst r) = false := by
+  unfold okNumRepr at h
+  simp only [Bool.and_eq_true, Bool.not_eq_true'] at h
+  exact h.1.1.2
+
+theorem gv_const (d : Default) (h : numOK d = true) : getValue (Expr.reparse (.const (.val d))) = .val d := by
+  cases d with
+  | int i =>
+    unfold Expr.reparse
+    by_cases hi : i < 0
+    · simp [hi, getValue, negDefault]
+    · simp [hi, getValue]
+  | float r =>
+    unfold Expr.reparse
+    by_cases hn : isNegRepr r = true
+    · simp [hn, getValue, negDefault, isNegRepr_dropFirst h, dash_dropFirst hn]
+    · simp [hn, getValue]
+  | complex r =>
+    unfold Expr.reparse
+    by_cases hn : isNegRepr r = true
+    · simp [hn, getValue, negDefault, isNegRepr_dropFirst h, dash_dropFirst hn]
+    · simp [hn, getValue]
+  | bool b => simp [Expr.reparse, getValue]
+  | str s => simp [Expr.reparse, getValue]
+
+theorem gv_none : getValue (Expr.reparse (.const .none)) = .val (.str NoneStr) := by
+  simp [Expr.reparse, getValue]
+
+/-- CPython facts about `env.pyExpr` the theorems use: a source wrapped in backticks is a `SyntaxError` -/
+def EnvOK (env : Env) : Prop := ∀ s, codeQuoted s = true → env.pyExpr s = none
+
+/-! ## `param2ast` -/
+
+theorem okTyp_renamed {t : String} (h : okTyp t = true) :
+    (t == "Str" || t == "Constant" || t == "NameConstant" || t == "Num") = false := by
+  unfold okTyp renamedTyps at h
+  simp only [Bool.and_eq_true, Bool.not_eq_true', List.contains_cons, List.contains_nil, Bool.or_false] at h
+  simpa [Bool.or_assoc] using h.1.1.1.2
+
+theorem okTyp_dict {t : String} (h : okTyp t = true) : (t == "dict" || startsWith t "*") = false := by
+  unfold okTyp at h
+  simp only [Bool.and_eq_true, Bool.not_eq_true', bne_iff_ne, ne_eq] at h
+  simp [h.1.1.2, h.1.2]
+
+theorem param2ast_none (env : Env) (n t : String) (doc : Option String) (ht : okTyp t = true) :
+    param2ast env (n, { doc := doc, typ := some t, default := none }) = .ok (.ann n t none) := by
+  unfold param2ast
+  simp only [userDefault, okTyp_renamed ht, okTyp_dict ht]
+  by_cases hq : needsQuoting (some t) = true
+  · simp [hq, pure, Except.pure, bind, Except.bind]
+  · by_cases hs : isSimple t = true
+    · simp [hq, hs, pure, Except.pure, bind, Except.bind]
+    · simp [hq, hs, pure, Except.pure, bind, Except.bind, genericParam2ast]
+
+theorem codeQuoted_NoneStr : codeQuoted NoneStr = true := by decide
+theorem quotedLike_NoneStr : quotedLike NoneStr = false := by decide
+theorem inner3_NoneStr : inner3 NoneStr = "(None)" := by decide
+
+theorem quoteStr_ne_NoneStr {s : String} (h : quotedLike s = false) (hs : s ≠ NoneStr) : (quoteStr s == NoneStr) = false := by
+  unfold quoteStr
+  cases hl : s.toList with
+  | nil => simp [hs]
+  | cons c cs =>
+    simp only [List.isEmpty_cons, h, Bool.or_self, Bool.false_eq_true, ↓reduceIte, beq_eq_false_iff_ne, ne_eq]
+    intro he
+    have := congrArg String.toList he
+    have e : "\"".toList = ['"'] := by decide
+    have e2 : NoneStr.toList = ['`', '`', '`', '(', 'N', 'o', 'n', 'e', ')', '`', '`', '`'] := by decide
+    simp [String.toList_append, e, e2] at this
+
+/-- the shape of a default that `okDefault` admits, split the way the proofs use it -/
+theorem okDefault_str_cases {fn : Bool} {t s : String} (h : okDefault fn t (.str s) = true) :
+    (s = NoneStr ∧ startsWith t "Optional[" = true) ∨
+    (s ≠ NoneStr ∧ codeQuoted s = true ∧ okCodeStr s = true ∧ hasChar t '[' = true) ∨
+    (s ≠ NoneStr ∧ codeQuoted s = false ∧ okPlainStr s = true ∧ (needsQuoting (some t) || isSimple t) = true) := by
+  unfold okDefault at h
+  by_cases h1 : s = NoneStr
+  · left; simp [h1] at h; exact ⟨h1, h⟩
+  · have : (s == NoneStr) = false := by simpa using h1
+    simp only [this, Bool.false_eq_true, ↓reduceIte] at h
+    by_cases h2 : codeQuoted s = true
+    · right; left; simp only [h2, ↓reduceIte, Bool.and_eq_true] at h; exact ⟨h1, h2, h.1, h.2⟩
+    · right; right
+      have h2' : codeQuoted s = false := by simpa using h2
+      simp only [h2', Bool.false_eq_true, ↓reduceIte, Bool.and_eq_true] at h; exact ⟨h1, h2', h.1, h.2⟩
+
+theorem okEmit_str_cases {t s : String} (h : okEmit t (.str s) = true) :
+    s = NoneStr ∨ (s ≠ NoneStr ∧ codeQuoted s = true ∧ okCodeStr s = true) ∨
+    (s ≠ NoneStr ∧ codeQuoted s = false ∧ okPlainStr s = true ∧ (needsQuoting (some t) || isSimple t) = true) := by
+  unfold okEmit at h
+  by_cases h1 : s = NoneStr
+  · left; exact h1
+  · have : (s == NoneStr) = false := by simpa using h1
+    simp only [this, Bool.false_or] at h
+    by_cases h2 : codeQuoted s = true
+    · right; left; simp only [h2, ↓reduceIte] at h; exact ⟨h1, h2, h⟩
+    · right; right
+      have h2' : codeQuoted s = false := by simpa using h2
+      simp only [h2', Bool.false_eq_true, ↓reduceIte, Bool.and_eq_true] at h; exact ⟨h1, h2', h.1, h.2⟩
+
+theorem okDefault_okEmit {fn : Bool} {t : String} {d : Default} (h : okDefault fn t d = true) : okEmit t d = true := by
+  cases d with
+  | str s =>
+    rcases okDefault_str_cases h with ⟨h1, _⟩ | ⟨h1, h2, h3, _⟩ | ⟨h1, h2, h3, h4⟩
+    · simp [okEmit, h1]
+    · simp [okEmit, h2, h3]
+    · simp only [okEmit, h2, h3, Bool.false_eq_true, ↓reduceIte, Bool.true_and, Bool.or_eq_true]; right; simpa using h4
+  | int i => rfl
+  | bool b => rfl
+  | float r => simp_all [okDefault, okEmit]
+  | complex r => simp_all [okDefault, okEmit]
+
+theorem okCodeStr_facts {s : String} (h : okCodeStr s = true) :
+    quotedLike s = false ∧ (inner3 s == "None") = false ∧ (inner3 s == "(None)") = false := by
+  unfold okCodeStr at h
+  simp only [Bool.and_eq_true, Bool.not_eq_true', bne_iff_ne, ne_eq] at h
+  refine ⟨h.1.1.1.2, ?_, ?_⟩ <;> simp [h.1.2, h.2]
+
+theorem okPlainStr_facts {s : String} (h : okPlainStr s = true) : quotedLike s = false ∧ s ≠ "None" := by
+  unfold okPlainStr at h
+  simp only [Bool.and_eq_true, Bool.not_eq_true', bne_iff_ne, ne_eq] at h
+  exact ⟨h.1.1.1, h.1.2⟩
+
+theorem codeQuoted_nonempty {s : String} (h : codeQuoted s = true) : s.toList.isEmpty = false := by
+  unfold codeQuoted at h
+  simp only [Bool.and_eq_true, decide_eq_true_eq] at h
+  cases hl : s.toList with
+  | nil => rw [hl] at h; simp at h
+  | cons c cs => rfl
+
+theorem okEmit_numOK {t : String} {d : Default} (h : okEmit t d = true) : numOK d = true := by
+  cases d <;> simp_all [okEmit, numOK]
+
+/-- the expression `param2ast` writes for an admissible default -/
+def attrExpr (d : Default) : Expr := if d.isNoneStr then .const .none else .const (.val d)
+
+theorem attrExpr_back {d : Default} (h : numOK d = true) : getValue (attrExpr d).reparse = .val d := by
+  unfold attrExpr
+  by_cases hn : d.isNoneStr = true
+  · cases d with
+    | str s => simp only [Default.isNoneStr, beq_iff_eq] at hn; subst hn; simp [Default.isNoneStr, gv_none]
+    | _ => simp [Default.isNoneStr] at hn
+  · simp only [hn, Bool.false_eq_true, ↓reduceIte]; exact gv_const d h
+
+/-- `param2ast` on a typed parameter with an admissible default: an annotated assignment whose value, once rendered,
+    re-read and passed through `get_value`, is the default again (`attrExpr_back`) -/
+theorem param2ast_some (env : Env) (hEnv : EnvOK env) (n t : String) (doc : Option String) (d : Default)
+    (ht : okTyp t = true) (hd : okEmit t d = true) :
+    param2ast env (n, { doc := doc, typ := some t, default := some (.val d) }) = .ok (.ann n t (some (attrExpr d))) := by
+  unfold param2ast attrExpr
+  simp only [userDefault, okTyp_renamed ht, okTyp_dict ht]
+  by_cases hq : needsQuoting (some t) = true
+  · -- quoting branch
+    cases d with
+    | str s =>
+      rcases okEmit_str_cases hd with h1 | ⟨h1, _, h3⟩ | ⟨h1, _, h3, _⟩
+      · subst h1
+        simp [hq, pure, Except.pure, bind, Except.bind, Default.isNoneStr]
+      · have hql := (okCodeStr_facts h3).1
+        simp [hq, pure, Except.pure, bind, Except.bind, Default.isNoneStr, h1, getDefaultVal, quoteD, quoteStr_ne_NoneStr hql h1,
+          setValue, setValueStr_quoteStr hql]
+      · have hql := (okPlainStr_facts h3).1
+        simp [hq, pure, Except.pure, bind, Except.bind, Default.isNoneStr, h1, getDefaultVal, quoteD, quoteStr_ne_NoneStr hql h1,
+          setValue, setValueStr_quoteStr hql]
+    | int i => simp [hq, pure, Except.pure, bind, Except.bind, Default.isNoneStr, getDefaultVal, quoteD, setValue]
+    | float r => simp [hq, pure, Except.pure, bind, Except.bind, Default.isNoneStr, getDefaultVal, quoteD, setValue]
+    | complex r => simp [hq, pure, Except.pure, bind, Except.bind, Default.isNoneStr, getDefaultVal, quoteD, setValue]
+    | bool b => simp [hq, pure, Except.pure, bind, Except.bind, Default.isNoneStr, getDefaultVal, quoteD, setValue]
+  · have hq' : needsQuoting (some t) = false := by simpa using hq
+    by_cases hs : isSimple t = true
+    · -- simple type
+      cases d with
+      | str s =>
+        rcases okEmit_str_cases hd with h1 | ⟨h1, _, h3⟩ | ⟨h1, _, h3, _⟩
+        · subst h1
+          simp [hq', hs, pure, Except.pure, bind, Except.bind, Default.isNoneStr, getDefaultVal]
+        · have hql := (okCodeStr_facts h3).1
+          simp [hq', hs, pure, Except.pure, bind, Except.bind, Default.isNoneStr, h1, getDefaultVal, setValue, setValueStr_id hql]
+        · have hql := (okPlainStr_facts h3).1
+          simp [hq', hs, pure, Except.pure, bind, Except.bind, Default.isNoneStr, h1, getDefaultVal, setValue, setValueStr_id hql]
+      | int i => simp [hq', hs, pure, Except.pure, bind, Except.bind, Default.isNoneStr, getDefaultVal, setValue]
+      | float r => simp [hq', hs, pure, Except.pure, bind, Except.bind, Default.isNoneStr, getDefaultVal, setValue]
+      | complex r => simp [hq', hs, pure, Except.pure, bind, Except.bind, Default.isNoneStr, getDefaultVal, setValue]
+      | bool b => simp [hq', hs, pure, Except.pure, bind, Except.bind, Default.isNoneStr, getDefaultVal, setValue]
+    · -- `_generic_param2ast`
+      have hs' : isSimple t = false := by simpa using hs
+      cases d with
+      | str s =>
+        rcases okEmit_str_cases hd with h1 | ⟨h1, h2, h3⟩ | ⟨_, _, _, h4⟩
+        · subst h1
+          simp [hq', hs', pure, Except.pure, bind, Except.bind, genericParam2ast, Default.isCode, codeQuoted_NoneStr, inner3_NoneStr, Default.isNoneStr]
+        · obtain ⟨hql, hi1, hi2⟩ := okCodeStr_facts h3
+          simp [hq', hs', pure, Except.pure, bind, Except.bind, genericParam2ast, Default.isCode, h2, hi1, hi2, codeQuoted_nonempty h2, hEnv s h2,
+            setValue, setValueStr_id hql, Default.isNoneStr, h1]
+        · simp [hq', hs'] at h4
+      | int i => simp [hq', hs', pure, Except.pure, bind, Except.bind, genericParam2ast, Default.isCode, setValue, Default.isNoneStr]
+      | float r => simp [hq', hs', pure, Except.pure, bind, Except.bind, genericParam2ast, Default.isCode, setValue, Default.isNoneStr]
+      | complex r => simp [okEmit, hq', hs'] at hd
+      | bool b => simp [hq', hs', pure, Except.pure, bind, Except.bind, genericParam2ast, Default.isCode, setValue, Default.isNoneStr]
+
+/-! ## `_infer_default` -/
+
+theorem codeQuoted_None : codeQuoted "None" = false := by decide
+
+/-- on a Python value that `okDefault` admits, `_infer_default` changes nothing -/
+theorem inferDefault_val (it fn : Bool) (doc : Option String) (t : String) (d : Default) (hd : okDefault fn t d = true) :
+    inferDefault it { doc := doc, typ := some t, default := some (.val d) } = .ok { doc := doc, typ := some t, default := some (.val d) } := by
+  unfold inferDefault
+  cases d with
+  | str s =>
+    rcases okDefault_str_cases hd with ⟨h1, _⟩ | ⟨h1, h2, h3, h4⟩ | ⟨h1, h2, h3, _⟩
+    · subst h1
+      simp [DVal.inNoneTypes, Default.inNoneTypes, pure, Except.pure, bind, Except.bind, unquoteStr_id quotedLike_NoneStr, DVal.isNoneStr,
+        Default.isNoneStr]
+    · have hql := (okCodeStr_facts h3).1
+      have hn : s ≠ "None" := by intro h; rw [h, codeQuoted_None] at h2; cases h2
+      simp [DVal.inNoneTypes, Default.inNoneTypes, pure, Except.pure, bind, Except.bind, unquoteStr_id hql, DVal.isNoneStr,
+        Default.isNoneStr, h1, hn, DVal.isCodeStr, Default.isCode, h2, h4]
+    · obtain ⟨hql, hn⟩ := okPlainStr_facts h3
+      simp [DVal.inNoneTypes, Default.inNoneTypes, pure, Except.pure, bind, Except.bind, unquoteStr_id hql, DVal.isNoneStr,
+        Default.isNoneStr, h1, hn, DVal.isCodeStr, Default.isCode, h2]
+  | int i => by_cases hq : needsQuoting (some t) = true <;>
+      simp [DVal.inNoneTypes, Default.inNoneTypes, pure, Except.pure, bind, Except.bind, DVal.isNoneStr, Default.isNoneStr, DVal.isCodeStr, Default.isCode, hq]
+  | float r => by_cases hq : needsQuoting (some t) = true <;>
+      simp [DVal.inNoneTypes, Default.inNoneTypes, pure, Except.pure, bind, Except.bind, DVal.isNoneStr, Default.isNoneStr, DVal.isCodeStr, Default.isCode, hq]
+  | complex r => by_cases hq : needsQuoting (some t) = true <;>
+      simp [DVal.inNoneTypes, Default.inNoneTypes, pure, Except.pure, bind, Except.bind, DVal.isNoneStr, Default.isNoneStr, DVal.isCodeStr, Default.isCode, hq]
+  | bool b => by_cases hq : needsQuoting (some t) = true <;>
+      simp [DVal.inNoneTypes, Default.inNoneTypes, pure, Except.pure, bind, Except.bind, DVal.isNoneStr, Default.isNoneStr, DVal.isCodeStr, Default.isCode, hq]
+
+/-! ## `_set_name_and_type` -/
+
+theorem mergePresent_own_doc (p : Param) (d0 : String) (h : p.doc = some d0) :
+    mergePresent { doc := some d0, typ := none, default := none } p = p := by
+  unfold mergePresent
+  by_cases he : d0 = ""
+  · simp [falsyDoc, h, he]
+  · simp [falsyDoc, h, he]
+
+/-- the description a parameter ends with: dropped when empty, otherwise tidied -/
+def docAfter : Option String → Option String
+  | none => none
+  | some d0 => if d0 == "" then none else some (tidyDoc d0)
+
+theorem docAfter_view (d0? : Option String) : (docAfter d0?).bind normDoc = docView true d0? := by
+  cases d0? with
+  | none => rfl
+  | some d0 => unfold docAfter docView; by_cases h : (d0 == "") = true <;> simp [h]
+
+theorem okName_facts {n : String} (h : okName n = true) : (endsWith n "kwargs" || startsWith n "*") = false ∧ n ≠ "return_type" := by
+  unfold okName at h
+  simp only [Bool.and_eq_true, Bool.not_eq_true', bne_iff_ne, ne_eq] at h
+  exact ⟨by simp [h.1.1.1.1.2, h.1.1.1.2], h.1.1.2⟩
+
+theorem okTyp_googleOpt {t : String} (h : okTyp t = true) : endsWith t googleOpt = false := by
+  unfold okTyp at h
+  simp only [Bool.and_eq_true, Bool.not_eq_true'] at h
+  exact h.2
+
+theorem sntMerge_quiet (env : Env) (n : String) (b : Bool) (p : Param)
+    (hq : ∀ d0, p.doc = some d0 → docQuiet env n b d0 = true) : sntMerge env p = p := by
+  unfold sntMerge
+  cases hd : p.doc with
+  | none => rfl
+  | some d0 =>
+    have := hq d0 hd
+    unfold docQuiet at this
+    simp only [Bool.and_eq_true, beq_iff_eq] at this
+    simp only [this.1]
+    exact mergePresent_own_doc _ d0 hd
+
+theorem sntGoogle_id (p : Param) (t : String) (hp : p.typ = some t) (h : endsWith t googleOpt = false) : sntGoogle p = p := by
+  unfold sntGoogle; simp [hp, h]
+
+theorem sntDoc_quiet (env : Env) (n : String) (wasNone : Bool) (d0? : Option String) (t : String) (dv : Option DVal)
+    (hq : ∀ d0, d0? = some d0 → docQuiet env n (isNoneStrD dv) d0 = true)
+    (hw : wasNone = true → startsWith t "Optional[" = true) :
+    sntDoc env n wasNone (sntDropEmptyDoc { doc := d0?, typ := some t, default := dv }) = { doc := docAfter d0?, typ := some t, default := dv } := by
+  cases d0? with
+  | none => simp [sntDropEmptyDoc, sntDoc, docAfter]
+  | some d0 =>
+    by_cases he : d0 = ""
+    · subst he; simp [sntDropEmptyDoc, sntDoc, docAfter]
+    · have := hq d0 rfl
+      unfold docQuiet at this
+      simp only [Bool.and_eq_true, beq_iff_eq, Bool.or_eq_true, Bool.not_eq_true'] at this
+      obtain ⟨_, h2⟩ := this
+      rcases h2 with h2 | ⟨⟨ha, ho1⟩, ho2⟩
+      · exact absurd h2 he
+      · simp only [sntDropEmptyDoc, sntDoc, Option.some.injEq, he, beq_iff_eq, ↓reduceIte, ha, ho1, ho2, docAfter,
+          Bool.or_self, Bool.false_or]
+        by_cases hwn : wasNone = true
+        · simp [hwn, hw hwn]
+        · simp [hwn]
+
+/-- `_set_name_and_type` on an entry whose description is quiet and whose default is admissible: name, type and default
+    stay, the description is tidied (or dropped when empty) -/
+theorem setNameAndType_ok (env : Env) (it fn : Bool) (n : String) (d0? : Option String) (t : String) (dflt : Option Default)
+    (hn : okName n = true) (ht : okTyp t = true) (hd : ∀ d, dflt = some d → okDefault fn t d = true)
+    (hq : ∀ d0, d0? = some d0 → docQuiet env n (isNoneStrD (dflt.map .val)) d0 = true) :
+    setNameAndType env it (n, { doc := d0?, typ := some t, default := dflt.map .val }) =
+      .ok (n, { doc := docAfter d0?, typ := some t, default := dflt.map .val }) := by
+  obtain ⟨hk, _⟩ := okName_facts hn
+  unfold setNameAndType
+  have hm : sntMerge env ⟨d0?, some t, dflt.map DVal.val⟩ = ⟨d0?, some t, dflt.map DVal.val⟩ :=
+    sntMerge_quiet env n _ ⟨d0?, some t, dflt.map DVal.val⟩ hq
+  simp only [hm, hk, Bool.false_eq_true, ↓reduceIte]
+  cases dflt with
+  | none =>
+    simp only [Option.map_none, Option.isSome_none, Bool.false_eq_true, ↓reduceIte, bind, Except.bind, pure, Except.pure]
+    rw [sntGoogle_id _ t rfl (okTyp_googleOpt ht)]
+    have := sntDoc_quiet env n false d0? t none (by simpa using hq) (by intro h; cases h)
+    simp only [this]
+  | some d =>
+    simp only [Option.map_some, Option.isSome_some, ↓reduceIte, inferDefault_val it fn d0? t d (hd d rfl), bind, Except.bind, pure, Except.pure]
+    rw [sntGoogle_id _ t rfl (okTyp_googleOpt ht)]
+    have := sntDoc_quiet env n d.inNoneTypes d0? t (some (.val d)) (by simpa using hq) ?_
+    · simp only [this]
+    -- the `was_none` wrapping is a no-op: a `None` default sits under `Optional[…]`
+    intro hw
+    cases d with
+    | str s =>
+      rcases okDefault_str_cases (hd _ rfl) with ⟨_, h⟩ | ⟨h1, h2, _, _⟩ | ⟨h1, _, h3, _⟩
+      · exact h
+      · simp only [Default.inNoneTypes, Bool.or_eq_true, beq_iff_eq] at hw
+        rcases hw with hw | hw
+        · rw [hw, codeQuoted_None] at h2; cases h2
+        · exact absurd hw h1
+      · simp only [Default.inNoneTypes, Bool.or_eq_true, beq_iff_eq] at hw
+        rcases hw with hw | hw
+        · exact absurd hw (okPlainStr_facts h3).2
+        · exact absurd hw h1
+    | _ => simp [Default.inNoneTypes] at hw
+
+/-! ## lists in the `Except` monad -/
+
+theorem mapM_ok {α β : Type} (f : α → Except String β) (g : α → β) :
+    ∀ l : List α, (∀ x ∈ l, f x = .ok (g x)) → l.mapM f = .ok (l.map g)
+  | [], _ => rfl
+  | x :: xs, h => by
+    rw [List.mapM_cons, h x (List.mem_cons_self ..), mapM_ok f g xs (fun y hy => h y (List.mem_cons_of_mem _ hy))]
+    rfl
+
+theorem foldlM_ok {α σ : Type} (f : σ → α → Except String σ) (g : σ → α → σ) (inv : σ → List α → Prop) :
+    ∀ (l : List α) (s : σ), inv s l → (∀ s x rest, inv s (x :: rest) → f s x = .ok (g s x) ∧ inv (g s x) rest) →
+      l.foldlM f s = .ok (l.foldl g s)
+  | [], _, _, _ => rfl
+  | x :: xs, s, hi, hstep => by
+    obtain ⟨h1, h2⟩ := hstep s x xs hi
+    rw [List.foldlM_cons, h1]
+    exact foldlM_ok f g inv xs (g s x) h2 hstep
+
+/-! ## class / pydantic: emitter output -/
+
+/-- the attribute statement of an entry -/
+def attrOf (kv : String × Param) : Stmt :=
+  .ann kv.1 (kv.2.typ.getD "") (match kv.2.default with | some (.val d) => some (attrExpr d) | _ => none)
+
+/-- what the class emitter needs of an entry -/
+def okAttr (kv : String × Param) : Bool :=
+  match kv.2.typ with
+  | some t => okTyp t && (match kv.2.default with | none => true | some (.val d) => okEmit t d | some (.node _) => false)
+  | none => false
+
+theorem param2ast_attr (env : Env) (hEnv : EnvOK env) (kv : String × Param) (h : okAttr kv = true) :
+    param2ast env kv = .ok (attrOf kv) := by
+  obtain ⟨n, doc, typ, dflt⟩ := kv
+  unfold okAttr at h
+  cases typ with
+  | none => simp at h
+  | some t =>
+    simp only [Bool.and_eq_true] at h
+    cases dflt with
+    | none => simpa [attrOf] using param2ast_none env n t doc h.1
+    | some dv =>
+      cases dv with
+      | val d => simpa [attrOf] using param2ast_some env hEnv n t doc d h.1 h.2
+      | node e => simp at h
+
+theorem okParam_okAttr {fn : Bool} {kv : String × Param} (h : okParam fn kv = true) : okAttr kv = true := by
+  obtain ⟨n, doc, typ, dflt⟩ := kv
+  unfold okParam at h
+  unfold okAttr
+  cases typ with
+  | none => simp at h
+  | some t =>
+    simp only [Bool.and_eq_true] at h ⊢
+    refine ⟨h.2.1, ?_⟩
+    cases dflt with
+    | none => rfl
+    | some dv =>
+      cases dv with
+      | val d => exact okDefault_okEmit h.2.2
+      | node e => simp at h
+
+theorem okClassReturn_okAttr {r : Param} (h : okClassReturn r = true) : okAttr ("return_type", r) = true := by
+  unfold okClassReturn at h
+  unfold okAttr
+  exact h
+
+/-- the docstring statement the class emitter writes (none when the rendered docstring is blank) -/
+def clsDocStmts (env : Env) (cfg : Cfg) (ir : IR) : List Stmt :=
+  let ds := String.ofList (Py.rstrip (env.docEmit (classDocCfg cfg) (classDocIR ir)).toList)
+  if ds.toList.isEmpty then [] else [.doc (setValueStr ds)]
+
+def clsBody (env : Env) (cfg : Cfg) (ir : IR) : List Stmt :=
+  let body := clsDocStmts env cfg ir ++ (mergedParams ir).map attrOf
+  if body.isEmpty then [.ellipsis] else body
+
+theorem emitClass_ok (env : Env) (hEnv : EnvOK env) (cfg : Cfg) (ir : IR) (name : String) (hname : ir.name = some name)
+    (hall : ∀ kv ∈ mergedParams ir, okAttr kv = true) :
+    emitClass env cfg ir = .ok (.cls name cfg.classBases (clsBody env cfg ir)) := by
+  unfold emitClass
+  simp only [hname, mapM_ok (param2ast env) attrOf (mergedParams ir) (fun kv hkv => param2ast_attr env hEnv kv (hall kv hkv)),
+    bind, Except.bind, pure, Except.pure]
+  rfl
+
+/-! ## class / pydantic: the parser's loop over the attributes -/
+
+/-- what an `AnnAssign` does to the entry it finds: `dict.update(typ=…, default=…)` -/
+def updOf (kv : String × Param) (p : Param) : Param :=
+  { p with typ := some (kv.2.typ.getD ""), default := match kv.2.default with | some (.val d) => some (.val d) | _ => p.default }
+
+theorem classDefaultOf_attr {t : String} {d : Default} (h : okEmit t d = true) :
+    classDefaultOf (attrExpr d).reparse = .ok (.val d) := by
+  unfold classDefaultOf; rw [attrExpr_back (okEmit_numOK h)]; rfl
+
+theorem classStep_attr (ir : IR) (kv : String × Param) (hk : dhas ir.params kv.1 = true) (hs : startsWith kv.1 "*" = false)
+    (ha : okAttr kv = true) :
+    classStep ir (attrOf kv).reparse = .ok { ir with params := dmodify ir.params kv.1 (updOf kv) } := by
+  obtain ⟨n, doc, typ, dflt⟩ := kv
+  unfold okAttr at ha
+  cases typ with
+  | none => simp at ha
+  | some t =>
+    simp only [Bool.and_eq_true] at ha
+    cases dflt with
+    | none =>
+      simp only [attrOf, Stmt.reparse, classStep, Option.map_none, hs, hk, Bool.false_eq_true, ↓reduceIte, bind, Except.bind, pure, Except.pure]
+      rfl
+    | some dv =>
+      cases dv with
+      | node e => simp at ha
+      | val d =>
+        simp only [attrOf, Stmt.reparse, classStep, Option.map_some, classDefaultOf_attr ha.2, hs, hk, Bool.false_eq_true, ↓reduceIte,
+          bind, Except.bind, pure, Except.pure]
+        rfl
+
+theorem classStep_ret (ir : IR) (r : Param) (hk : dhas ir.params "return_type" = false) (ha : okAttr ("return_type", r) = true) :
+    classStep ir (attrOf ("return_type", r)).reparse = .ok { ir with returns := some (updOf ("return_type", r) (ir.returns.getD {})) } := by
+  obtain ⟨doc, typ, dflt⟩ := r
+  have hs : startsWith "return_type" "*" = false := by decide
+  unfold okAttr at ha
+  cases typ with
+  | none => simp at ha
+  | some t =>
+    simp only [Bool.and_eq_true] at ha
+    cases dflt with
+    | none =>
+      simp only [attrOf, Stmt.reparse, classStep, Option.map_none, hs, hk, Bool.false_eq_true, ↓reduceIte, bind, Except.bind, pure, Except.pure]
+      cases ir.returns <;> rfl
+    | some dv =>
+      cases dv with
+      | node e => simp at ha
+      | val d =>
+        simp only [attrOf, Stmt.reparse, classStep, Option.map_some, classDefaultOf_attr ha.2, hs, hk, Bool.false_eq_true, ↓reduceIte,
+          bind, Except.bind, pure, Except.pure]
+        cases ir.returns <;> rfl
+
+theorem dmodify_at (pre post : Dict) (k : String) (p : Param) (f : Param → Param)
+    (h1 : k ∉ dkeys pre) (h2 : k ∉ dkeys post) :
+    dmodify (pre ++ (k, p) :: post) k f = pre ++ (k, f p) :: post := by
+  unfold dmodify
+  have hid : ∀ l : Dict, k ∉ dkeys l → l.map (fun kv => if (kv.1 == k) = true then (kv.1, f kv.2) else kv) = l := by
+    intro l hl
+    induction l with
+    | nil => rfl
+    | cons x xs ih =>
+      simp only [dkeys, List.map_cons, List.mem_cons, not_or] at hl
+      have hx : (x.1 == k) = false := by simpa using fun h => hl.1 h.symm
+      simp only [List.map_cons, hx, Bool.false_eq_true, ↓reduceIte]
+      rw [ih (by simpa [dkeys] using hl.2)]
+  simp only [List.map_append, List.map_cons, beq_self_eq_true, ↓reduceIte, hid pre h1, hid post h2]
+
+theorem dhas_mid (pre post : Dict) (k : String) (p : Param) : dhas (pre ++ (k, p) :: post) k = true := by
+  simp [dhas]
+
+/-- pointwise update of the docstring entries by the attributes (aligned lists) -/
+def zipUpd : Dict → List (String × Param) → Dict
+  | kv0 :: P0, kv :: L => (kv0.1, updOf kv kv0.2) :: zipUpd P0 L
+  | _, _ => []
+
+/-- keys of the two lists agree position by position -/
+def aligned : Dict → List (String × Param) → Bool
+  | [], [] => true
+  | a :: as, b :: bs => a.1 == b.1 && aligned as bs
+  | _, _ => false
+
+theorem classFold_params : ∀ (L : List (String × Param)) (P0 pre : Dict) (irb : IR),
+    aligned P0 L = true → (dkeys (pre ++ P0)).Nodup → (∀ kv ∈ L, okAttr kv = true ∧ startsWith kv.1 "*" = false) →
+    (L.map (fun kv => (attrOf kv).reparse)).foldlM classStep { irb with params := pre ++ P0 } =
+      .ok { irb with params := pre ++ zipUpd P0 L }
+  | [], [], pre, irb, _, _, _ => by simp [zipUpd, pure, Except.pure]
+  | [], _ :: _, _, _, h, _, _ => by simp [aligned] at h
+  | _ :: _, [], _, _, h, _, _ => by simp [aligned] at h
+  | kv :: L, kv0 :: P0, pre, irb, hal, hnd, hok => by
+    simp only [aligned, Bool.and_eq_true, beq_iff_eq] at hal
+    obtain ⟨hkey, hal'⟩ := hal
+    obtain ⟨k0, p0⟩ := kv0
+    simp only at hkey
+    subst hkey
+    have hnd' : (dkeys pre ++ kv.1 :: dkeys P0).Nodup := by simpa [dkeys] using hnd
+    have h1 : kv.1 ∉ dkeys pre := by
+      intro hm
+      have := (List.nodup_append.mp hnd').2.2 _ hm _ (List.mem_cons_self ..)
+      exact this rfl
+    have h2 : kv.1 ∉ dkeys P0 := by
+      have := (List.nodup_append.mp hnd').2.1
+      exact (List.nodup_cons.mp this).1
+    obtain ⟨ha, hs⟩ := hok kv (List.mem_cons_self ..)
+    rw [List.map_cons, List.foldlM_cons]
+    have hstep := classStep_attr { irb with params := pre ++ (kv.1, p0) :: P0 } kv (dhas_mid pre P0 kv.1 p0) hs ha
+    simp only at hstep
+    rw [hstep, dmodify_at pre P0 kv.1 p0 (updOf kv) h1 h2]
+    simp only [bind, Except.bind]
+    have hrec := classFold_params L P0 (pre ++ [(kv.1, updOf kv p0)]) irb hal' (by simpa [dkeys, List.append_assoc] using hnd)
+      (fun x hx => hok x (List.mem_cons_of_mem _ hx))
+    simpa [zipUpd, List.append_assoc] using hrec
+
+/-! ## class / pydantic: the entries after `_set_name_and_type` -/
+
+/-- the entry the class parser ends with -/
+def finalOf (kv0 kv : String × Param) : String × Param := (kv.1, { doc := docAfter kv0.2.doc, typ := kv.2.typ, default := kv.2.default })
+
+def zipFinal : Dict → List (String × Param) → Dict
+  | kv0 :: P0, kv :: L => finalOf kv0 kv :: zipFinal P0 L
+  | _, _ => []
+
+theorem okParam_facts {fn : Bool} {kv : String × Param} (h : okParam fn kv = true) :
+    okName kv.1 = true ∧ ∃ t, kv.2.typ = some t ∧ okTyp t = true ∧
+      ((kv.2.default = none) ∨ ∃ d, kv.2.default = some (.val d) ∧ okDefault fn t d = true) := by
+  obtain ⟨n, doc, typ, dflt⟩ := kv
+  unfold okParam at h
+  cases typ with
+  | none => simp at h
+  | some t =>
+    simp only [Bool.and_eq_true] at h
+    refine ⟨h.1, t, rfl, h.2.1, ?_⟩
+    cases dflt with
+    | none => left; rfl
+    | some dv =>
+      cases dv with
+      | val d => right; exact ⟨d, rfl, h.2.2⟩
+      | node e => simp at h
+
+theorem class_entry (env : Env) (it : Bool) (kv0 kv : String × Param) (hp : okParam false kv = true) (he : clsEntryOK env kv0 kv = true) :
+    setNameAndType env it (kv0.1, updOf kv kv0.2) = .ok (finalOf kv0 kv) ∧ (finalOf kv0 kv).2.view (finalOf kv0 kv).1 = kv.2.view kv.1 := by
+  obtain ⟨hn, t, htyp, ht, hdflt⟩ := okParam_facts hp
+  obtain ⟨hnk, hnr⟩ := okName_facts hn
+  unfold clsEntryOK at he
+  simp only [Bool.and_eq_true, beq_iff_eq] at he
+  obtain ⟨⟨hkey, hdesc⟩, hdef⟩ := he
+  have hrt : (kv.1 == "return_type") = false := by simpa using hnr
+  unfold clsDescOK at hdesc
+  simp only [hrt, Bool.false_eq_true, ↓reduceIte, Bool.and_eq_true, beq_iff_eq] at hdesc
+  obtain ⟨hview, hquiet⟩ := hdesc
+  obtain ⟨n0, p0⟩ := kv0
+  obtain ⟨n, p⟩ := kv
+  simp only at hkey htyp hdflt hview hquiet hn ht
+  subst hkey
+  constructor
+  · rcases hdflt with hnone | ⟨d, hd, hok⟩
+    · -- no default: the docstring must not have supplied one
+      have h0 : p0.default = none := by
+        unfold clsDefaultOK at hdef
+        simpa [hnone] using hdef
+      have hupd : updOf (n0, p) p0 = { doc := p0.doc, typ := some t, default := (none : Option Default).map .val } := by
+        simp [updOf, htyp, hnone, h0]
+      rw [hupd]
+      have := setNameAndType_ok env it false n0 p0.doc t none hn ht (fun d h => by cases h)
+        (fun d0 h => by
+          have := hquiet
+          simp only [h] at this
+          simpa [hnone] using this)
+      rw [this]
+      simp [finalOf, htyp, hnone]
+    · have hupd : updOf (n0, p) p0 = { doc := p0.doc, typ := some t, default := (some d).map .val } := by
+        simp [updOf, htyp, hd]
+      rw [hupd]
+      have := setNameAndType_ok env it false n0 p0.doc t (some d) hn ht (fun d' h => by cases h; exact hok)
+        (fun d0 h => by
+          have := hquiet
+          simp only [h] at this
+          simpa [hd] using this)
+      rw [this]
+      simp [finalOf, htyp, hd]
+  · simp only [finalOf, Param.view, docAfter_view, hview]
+
+theorem class_entries (env : Env) (it : Bool) : ∀ (P0 : Dict) (L : List (String × Param)),
+    forall2 (clsEntryOK env) P0 L = true → (∀ kv ∈ L, okParam false kv = true) →
+    (zipUpd P0 L).mapM (setNameAndType env it) = .ok (zipFinal P0 L) ∧
+      (zipFinal P0 L).map (fun kv => kv.2.view kv.1) = L.map (fun kv => kv.2.view kv.1)
+  | [], [], _, _ => by simp [zipUpd, zipFinal, pure, Except.pure]
+  | [], _ :: _, h, _ => by simp [forall2] at h
+  | _ :: _, [], h, _ => by simp [forall2] at h
+  | kv0 :: P0, kv :: L, h, hok => by
+    simp only [forall2, Bool.and_eq_true] at h
+    obtain ⟨h1, h2⟩ := class_entry env it kv0 kv (hok kv (List.mem_cons_self ..)) h.1
+    obtain ⟨r1, r2⟩ := class_entries env it P0 L h.2 (fun x hx => hok x (List.mem_cons_of_mem _ hx))
+    constructor
+    · simp only [zipUpd, zipFinal, List.mapM_cons, h1, r1, bind, Except.bind, pure, Except.pure]
+    · simp only [zipFinal, List.map_cons, h2, r2]
+
+theorem forall2_aligned (env : Env) : ∀ (P0 : Dict) (L : List (String × Param)), forall2 (clsEntryOK env) P0 L = true → aligned P0 L = true
+  | [], [], _ => rfl
+  | [], _ :: _, h => by simp [forall2] at h
+  | _ :: _, [], h => by simp [forall2] at h
+  | kv0 :: P0, kv :: L, h => by
+    simp only [forall2, Bool.and_eq_true] at h
+    simp only [aligned, Bool.and_eq_true]
+    refine ⟨?_, forall2_aligned env P0 L h.2⟩
+    have := h.1
+    unfold clsEntryOK at this
+    simp only [Bool.and_eq_true] at this
+    exact this.1.1
+
+theorem aligned_keys : ∀ (P0 : Dict) (L : List (String × Param)), aligned P0 L = true → dkeys P0 = dkeys L
+  | [], [], _ => rfl
+  | [], _ :: _, h => by simp [aligned] at h
+  | _ :: _, [], h => by simp [aligned] at h
+  | kv0 :: P0, kv :: L, h => by
+    simp only [aligned, Bool.and_eq_true, beq_iff_eq] at h
+    have ih := aligned_keys P0 L h.2
+    simp only [dkeys] at ih ⊢
+    simp [h.1, ih]
+
+theorem forall2_snoc {α β : Type} (f : α → β → Bool) : ∀ (as : List α) (bs : List β) (b : β),
+    forall2 f as (bs ++ [b]) = true → ∃ as' a, as = as' ++ [a] ∧ forall2 f as' bs = true ∧ f a b = true
+  | [], [], b, h => by simp [forall2] at h
+  | [a], [], b, h => by
+    simp only [List.nil_append, forall2, Bool.and_true] at h
+    exact ⟨[], a, rfl, rfl, h⟩
+  | a :: a2 :: as, [], b, h => by simp [forall2] at h
+  | [], _ :: _, b, h => by simp [forall2] at h
+  | a :: as, b0 :: bs, b, h => by
+    simp only [List.cons_append, forall2, Bool.and_eq_true] at h
+    obtain ⟨as', x, e, h1, h2⟩ := forall2_snoc f as bs b h.2
+    exact ⟨a :: as', x, by simp [e], by simp [forall2, h.1, h1], h2⟩
+
+/-! ## class / pydantic: the parser on the emitter's output -/
+
+/-- `if "return_type" in ir["params"]: ir["returns"] = {"return_type": ir["params"].pop("return_type")}` -/
+def popRet (ir0 : IR) : IR :=
+  match dget? ir0.params "return_type" with
+  | some p => { ir0 with params := dpop ir0.params "return_type", returns := some p }
+  | none => ir0
+
+theorem splitDoc_attrs (kv : String × Param) (rest : List Stmt) :
+    splitDoc ((attrOf kv).reparse :: rest) = (none, (attrOf kv).reparse :: rest) := by
+  simp [attrOf, Stmt.reparse, splitDoc]
+
+theorem parseClass_body (env : Env) (it : Bool) (cfg : Cfg) (ir : IR) (name : String) (bases : List String) :
+    parseClass env it (Top.reparse (.cls name bases (clsBody env cfg ir))) =
+      (do let ir2 ← ((mergedParams ir).map (fun kv => (attrOf kv).reparse)).foldlM classStep (popRet (clsDocIR0 env cfg ir))
+          let ps ← ir2.params.mapM (setNameAndType env it)
+          pure { ir2 with name := some name, params := ps }) := by
+  unfold parseClass Top.reparse clsBody clsDocStmts clsDocIR0 popRet
+  by_cases hds : (String.ofList (Py.rstrip (env.docEmit (classDocCfg cfg) (classDocIR ir)).toList)).toList.isEmpty = true
+  · simp only [hds, ↓reduceIte, List.nil_append]
+    cases hm : mergedParams ir with
+    | nil => simp [splitDoc, Stmt.reparse, classStep, dget?, pure, Except.pure, bind, Except.bind]
+    | cons kv rest =>
+      simp only [List.map_cons, List.isEmpty_cons, Bool.false_eq_true, ↓reduceIte, List.map_map]
+      rw [splitDoc_attrs]
+      simp [dget?, Function.comp_def]
+  · simp only [hds, Bool.false_eq_true, ↓reduceIte, List.cons_append, List.nil_append, List.isEmpty_cons, List.map_cons, Stmt.reparse, splitDoc,
+      List.map_map]
+    rfl
 
 end Iface
